@@ -60,12 +60,13 @@ type Pool struct {
 	// children) is an object the pool already holds (a clone must consist of new objects)
 	cloneLines  []string
 	cloneShared bool
+	c01         *c01map // bridge to the layout model of the C01/C07 stream
 }
 
 func (p *Pool) knownObject(id acme.EntityID) bool { _, ok := p.byID[id]; return ok }
 
 func newPool() *Pool {
-	return &Pool{byID: map[acme.EntityID]int{}, byIface: map[*acme.NodeInterface]int{}, kinds: map[Kind][]int{}}
+	return &Pool{byID: map[acme.EntityID]int{}, byIface: map[*acme.NodeInterface]int{}, kinds: map[Kind][]int{}, c01: newC01()}
 }
 
 func (p *Pool) add(e *Ent) int {
